@@ -1238,13 +1238,21 @@ func (vfs *MemFS) rename(oldpath, newpath string) (retry bool, err error) {
 	seq := vfs.renameSeqNow()
 
 	oParent, oChild, oPI, oErr := vfs.searchNode(oldpath, slmLstat)
-	if oErr != vfs.err.FileExists {
+
+	// The directories of both paths are looked up before the names themselves :
+	// a missing old name is reported after an error on the path of the new name.
+	oMissing := vfs.isNotExist(oErr) && oPI.IsLast()
+	if oErr != vfs.err.FileExists && !oMissing {
 		return false, oErr
 	}
 
 	nParent, nChild, nPI, nErr := vfs.searchNode(newpath, slmLstat)
 	if nErr != vfs.err.FileExists && !vfs.isNotExist(nErr) || vfs.isNotExist(nErr) && !nPI.IsLast() {
 		return false, nErr
+	}
+
+	if oMissing {
+		return false, oErr
 	}
 
 	if oChild == node(oParent) || nChild != nil && nChild == node(nParent) {
@@ -1288,6 +1296,11 @@ func (vfs *MemFS) rename(oldpath, newpath string) (retry bool, err error) {
 	if oParent.removed || nParent.removed || vfs.renameSeqNow() != seq ||
 		oParent.children[oPI.Part()] != oChild || nParent.children[nPI.Part()] != nChild {
 		return true, nil
+	}
+
+	if _, ok := nChild.(*dirNode); ok && nChild != oChild && vfs.OSType() != avfs.OsWindows {
+		// os.Rename refuses an existing directory as new name before the permissions are checked.
+		return false, vfs.err.FileExists
 	}
 
 	if !oParent.checkPermission(avfs.OpenWrite, vfs.User()) {
